@@ -86,9 +86,9 @@ def scn_of(line):
     return (m.group(1), m.group(2)) if m else ("0", "mixed")
 
 
-def scenario_text(scens, seed):
+def scenario_text(scens, seed, fam=None):
     for s in scens:
-        if s.startswith("SCN %s " % seed):
+        if s.startswith("SCN %s " % seed) and (fam is None or s.startswith("SCN %s family=%s " % (seed, fam))):
             return s
     return ""
 
@@ -124,7 +124,7 @@ def run_property(run, pid, families, prop_file, proof_files, n_quick=210, n_thor
         scens += split_scenarios(out)
     per = max(1, n // len(families))
     for k, fam in enumerate(families):
-        rc, out = C.sh([supbin, "-n", str(per), "-seed", str(run.seed * 1000 + k + hash(pid) % 97), "-family", fam,
+        rc, out = C.sh([supbin, "-n", str(per), "-seed", str(run.seed * 1000 + k * 7 + sum(map(ord, pid)) % 97), "-family", fam,
                         "-par", str(C.NPROC)], timeout=3000)
         scens += split_scenarios(out)
     lines, tot = run_model(scens, C.NPROC)
@@ -132,7 +132,7 @@ def run_property(run, pid, families, prop_file, proof_files, n_quick=210, n_thor
     seen = set()
     for l in lines:
         seed, fam = scn_of(l)
-        txt = scenario_text(scens, seed)
+        txt = scenario_text(scens, seed, fam)
         payload = {"seed": seed, "family": fam, "driver_line": l, "trace": txt.splitlines()[:400],
                    "how": "build/bin/sup -child -seed %s -family %s | build/bin/sup_model" % (seed, fam)}
         if l.startswith("PROPFAIL"):
@@ -147,22 +147,27 @@ def run_property(run, pid, families, prop_file, proof_files, n_quick=210, n_thor
                 other_rej += 1
                 continue
             mine_rej += 1
-            if (seed, kind) in seen:
+            if (seed, fam, kind) in seen:
                 continue
-            seen.add((seed, kind))
+            seen.add((seed, fam, kind))
             # a rejected trace on which one of this property's own monitors fails is reported with that input;
             # otherwise only the correspondence is broken
-            own_fail = [x for x in lines if x.startswith("PROPFAIL") and scn_of(x)[0] == seed
+            own_fail = [x for x in lines if x.startswith("PROPFAIL") and scn_of(x) == (seed, fam)
                         and PROP_OF_MONITOR.get(x.split()[1]) == pid]
             crash = "Crash" in l or "Watchdog" in l
+            # C02 is the progress property: the model rejects a Quiet event exactly when every model state
+            # consistent with the trace still has a mandatory step enabled, i.e. the implementation is
+            # observed blocked where the proved progress theorems say it must move: that scenario is the failing input
+            stuck = pid == "C02" and kind in ("Quiet", "NoQuiesce")
             if own_fail:
                 continue  # reported above with the failing input
             run.violation("corr:%s:%s:%s" % (kind, fam, seed),
                           dict(payload, theorem="correspondence B: accept_from (lib/LTS.v) on coq/model/Supervisor.v rejected "
                                "the implementation's trace at the given event"),
                           "implementation trace rejected by the supervisor model at a %s event (scenario %s/%s)%s" % (
-                              kind, fam, seed, "" if not crash else " - process crashed / hung"),
-                          no_input_found=not crash)
+                              kind, fam, seed, " - process crashed / hung" if crash else
+                              " - implementation blocked where the model must progress" if stuck else ""),
+                          no_input_found=not (crash or stuck))
     cov = run.coverage
     samples = []
     for s in scens[:2]:
